@@ -8,5 +8,6 @@ CONSTANTS
   TD <- ToDec
   NT <- NumText
   NTL <- NumTextLoc
+  CV <- Convert
 INVARIANTS LawDecRoundTrip LawDecBigAgrees LawDecBigRoundTrip LawDecLocRoundTrip LawDecLocShape
 CHECK_DEADLOCK FALSE
